@@ -89,6 +89,7 @@ func (t task) arg() string { return fmt.Sprintf("%s|%s|%d|%d", t.part, t.cfg, t.
 
 func plan(c *vf.Ctx) []task {
 	mul := c.Pick(1, 20)
+	mulHeavy := c.Pick(1, 10) // parts that replay every strict prefix in the thorough tier
 	type item struct {
 		part, cfg string
 		n, batch  int
@@ -109,7 +110,7 @@ func plan(c *vf.Ctx) []task {
 		{"file", "s=snappy,m=0,c=1", 32, 16},
 		{"file", "s=snappy,m=0,c=2", 32, 16},
 		{"file", "s=snappy,m=0,c=3", 32, 16},
-		{"rows", baseCfg, 3000, 500},
+		{"rows", baseCfg, 3000, 250},
 		{"rec", baseCfg, 1000, 500},
 		{"wal", baseCfg, 200, 20},
 	}
@@ -126,6 +127,9 @@ func plan(c *vf.Ctx) []task {
 			continue
 		}
 		n := it.n * mul
+		if it.part == "rows" || it.part == "wal" {
+			n = it.n * mulHeavy
+		}
 		for a := 0; a < n; a += it.batch {
 			b := a + it.batch
 			if b > n {
@@ -431,7 +435,7 @@ func replayWitness(c *vf.Ctx, path string) {
 		// these depend on the pools filled by their predecessors in the batch: run the batch up to the case
 		from := key.Idx - key.Idx%20
 		if key.Part == "rows" {
-			from = key.Idx - key.Idx%500
+			from = key.Idx - key.Idx%250
 		}
 		runRange(c, key.Part, key.Cfg, from, key.Idx+1)
 		return
